@@ -12,7 +12,11 @@
 //	CLimit  the real fm.seal runs in a child under RLIMIT_FSIZE (real EFBIG from the kernel on
 //	        ._sdocs / ._index): error -> logger.Fatal -> nothing published
 //
-// The cases are evaluated against props/C08/coq/{Model,CaseDefs}.v.
+// Round-5 extension (ext.go): CGenLIDs/CGenIDs/CGenTokens/CGenTable (the real block generators under
+// push oracles), CFaultSet (arbitrary sets of failing writes), CShape, CSealT (one injected write(2)
+// failure inside the real fm.seal on a corpus with full LID blocks).
+//
+// The cases are evaluated against props/C08/coq/{Model,ModelGen,CaseDefs}.v.
 package main
 
 import (
